@@ -676,7 +676,15 @@ impl<Front: SocketHandler> ConnectionH1<Front> {
                     // toward the client.
                     let close_delimited = stream.back.body_size == kawa::BodySize::Empty
                         && stream.context.method != Some(crate::protocol::kawa_h1::parser::Method::Head);
-                    if stream.context.keep_alive_frontend && !close_delimited {
+                    // The response is complete but the request is not (the backend answered
+                    // before it had the whole body: 401, 413, ...), or part of it was never
+                    // written to the backend. The bytes of that body still to come from the
+                    // client must not be read as the next request, and a reset would do
+                    // exactly that (`front.clear()` forgets the framing, the storage and the
+                    // socket keep the bytes): the exchange ends with the connection
+                    // (RFC 9112 section 9.6).
+                    let request_done = stream.front.is_terminated() && stream.front.is_completed();
+                    if stream.context.keep_alive_frontend && !close_delimited && request_done {
                         self.timeout_container.reset();
                         if let StreamState::Linked(token) = old_state {
                             endpoint.end_stream(token, stream_id, context);
@@ -974,7 +982,11 @@ impl<Front: SocketHandler> ConnectionH1<Front> {
                 // keep alive should probably be used only if the http context is fully reset
                 // in case end_stream occurs due to an error the connection state is probably
                 // unrecoverable and should be terminated
-                if stream_context.keep_alive_backend && stream.back.is_terminated() {
+                // A connection that was not given the whole request (early answer, then the
+                // stream was reset or retired) still expects body bytes: whatever is written
+                // on it next would be read as that body. It cannot go back to the pool.
+                let request_done = stream.front.is_terminated() && stream.front.is_completed();
+                if stream_context.keep_alive_backend && stream.back.is_terminated() && request_done {
                     *status = BackendStatus::KeepAlive;
                 } else {
                     self.force_disconnect();
